@@ -438,6 +438,10 @@ func c20Sess(name, f string) [][2]string {
 		return [][2]string{{"OpenW", f}, {"Close", f}}
 	case "Wn":
 		return [][2]string{{"OpenWn", f}, {"Write", f}, {"Close", f}}
+	case "Wn0":
+		return [][2]string{{"OpenWn", f}, {"Close", f}}
+	case "Wnf":
+		return [][2]string{{"OpenWn", f}, {"FdFlush", f}, {"Write", f}, {"Close", f}, {"OpenWn", f}, {"FdFlush", f}, {"Close", f}}
 	case "R":
 		return [][2]string{{"OpenR", f}, {"Read", f}, {"Close", f}}
 	}
@@ -495,7 +499,7 @@ func c20Record(t *testing.T) {
 		// every operation (and every descriptor state of Flush/Close) alone on a fresh root
 		var list [][][2]string
 		for _, f := range []string{"f1", "f2"} {
-			for _, n := range []string{"W", "W2", "W0", "Wn", "R"} {
+			for _, n := range []string{"W", "W2", "W0", "Wn", "Wn0", "Wnf", "R"} {
 				list = append(list, c20Sess(n, f))
 			}
 			for _, n := range c20Singles {
@@ -504,6 +508,9 @@ func c20Record(t *testing.T) {
 		}
 		for _, n := range append(append([]string{}, c20DirOps...), "DirFlush", "Uncache0") {
 			list = append(list, c20Sess(n, "f1"))
+		}
+		for i := 0; i < 40; i++ { // cacheSync walks a Go map: collect the orders it really takes
+			list = append(list, c20Sess("DirGetNode", "f1"))
 		}
 		list = append(list, c20Sess("Mv", "f2"))
 		// sequential composition in one goroutine: a writer session followed by attribute updates
@@ -786,7 +793,7 @@ func c20Replay(b c20Beh, stepTimeout, hangWait time.Duration) M {
 			for _, a := range ack {
 				i := sort.SearchInts(got, a)
 				if i >= len(got) || got[i] != a {
-					return M{"ok": false, "step": len(b.Steps), "data": true,
+					return M{"ok": false, "step": len(b.Steps), "data": true, "ackedlost": true,
 						"what": fmt.Sprintf("acknowledged token %d missing from %s after all sessions finished (has %v)", a, key, got)}
 				}
 			}
